@@ -94,7 +94,7 @@ func runC17(c *c17case) {
 		for _, k := range ks {
 			for _, obj := range objs[k] {
 				for _, li := range live {
-					if any(li.v.C) == obj && li.due <= vnow {
+					if any(li.v.C) == obj && li.due <= vnow && !li.expired {
 						dueNow = append(dueNow, li)
 					}
 				}
@@ -105,8 +105,9 @@ func runC17(c *c17case) {
 			go func(li *liveInst) { v.RunExpiration(li.v); close(done) }(li)
 			select {
 			case <-done:
-			case <-time.After(400 * time.Millisecond):
+			case <-time.After(150 * time.Millisecond):
 				stuck++ // its instant has passed and the routine still waits
+				li.expired = true // do not wait for it again
 			}
 		}
 	}
